@@ -18,22 +18,34 @@ RULE = ("seeded model programs with seeded streams (re-created in construct_mode
         "stepped k, paused at event k, bounded run, ended, paused by a handler fault, cleaned up, initialise while "
         "running (must be refused)}; non-trivial = prior history executed >= 1 event or left events pending, the "
         "model has >= 1 statistic and the second replication executed >= 3 events; distinct = canonical (program, "
-        "history) hash")
+        "history) hash; plus 24 (thorough 240) cases on a model-defined fixed-time-step simulator derived from the Simulator base class (initialize from inside a step / a run / a bounded run must be refused and change nothing; a later replication is fresh and identical)")
+RULE += '; half of the event-fed counters and tallies are fed by a producer that outlives the replications'
 ASSUMPTIONS = ["streams are re-created with the same seed in construct_model (not doing so is a model error, not generated)",
-               "the second replication uses the same model object and the same replication settings"]
+               "the second replication uses the same model object and the same replication settings",
+               "a producer that outlives the replications (statistics rebuilt, producer kept) is generated for counters and tallies only: the statistic of the earlier replication stays subscribed to it, harmless there, while a stale SimPersistent refuses the new replication's earlier time stamps - unsubscribing it is the model's business (like re-creating its streams)"]
 
 HIST = ["fresh", "step", "pause", "bounded", "ended", "fault", "cleanup", "init_while_running", "ended_twice", "end_replication",
         "init_while_starting", "touched", "other_model", "longer_before", "chained"]
 
 
+NTICK = {"quick": 24, "thorough": 240}
+
+
 def plan(tier):
-    n = 3600 if tier == "quick" else 90000
+    n = (3600 if tier == "quick" else 90000) + NTICK[tier]
     return {"cases": n, "shards": 12, "timeout": 900 if tier == "quick" else 5400, "min_nontrivial": 100,
             "min": {"replications_compared": 500, "statistic_getters_compared": 5000, "refused_initialize_while_running": 20}}
 
 
 def gen_case(rng, tier, i):
     from vlib.proggen import gen_program, add_stats, add_streams
+    base_n = 3600 if tier == "quick" else 90000
+    if i >= base_n:
+        # a model-defined simulator of another formalism (fixed time step), derived from the library's Simulator base class
+        # as its documentation describes: what the statement says about initialising holds for it too
+        j = i - base_n
+        return {"fam": "tick", "driver": ["start", "step", "run_up_to"][j % 3], "at": 1 + (j // 3) % 4, "length": rng.choice([6, 10]),
+                "start": rng.choice([0.0, 0.0, 5.0]), "earlier": (j // 12) % 2}
     clock = ["float", "float", "duration", "int"][(i // len(HIST)) % 4]      # every history meets every clock
     prog = gen_program(rng, clock=clock, n_events=rng.randint(4, 25), with_bad=False)
     if rng.random() < 0.85:
@@ -44,6 +56,9 @@ def gen_case(rng, tier, i):
             from vlib.proggen import add_simlisteners
             add_simlisteners(rng, prog, ("WARMUP_EVENT", "TIME_CHANGED_EVENT", "START_EVENT"))
     hist = HIST[i % len(HIST)]
+    for sp in prog.get("stats", []):
+        if sp.get("via") == "event" and sp["kind"] in ("counter", "tally", "wtally") and rng.random() < 0.5:
+            sp["keep_producer"] = True      # the producer feeding this statistic outlives the replications (statistics are rebuilt, it is not)
     if rng.random() < 0.25 and hist != "fault":
         # a model with failing handlers on a simulator whose error strategy was chosen once, when it was set up (log / warn and
         # continue): the setting is in force in every replication
@@ -80,8 +95,131 @@ def _observe_replication(h, first_h, first_n):
             "clock": float(h.sim.simulator_time), "state": (h.sim.run_state.name, h.sim.replication_state.name)}
 
 
+def _tick_case(case, ctx):
+    import threading
+    from pydsol.core.experiment import SingleReplication
+    from pydsol.core.model import DSOLModel
+    from pydsol.core.simulator import Simulator, RunState, ReplicationState
+    from pydsol.core.utils import DSOLError
+
+    class TickSimulator(Simulator):
+        def __init__(self, name):
+            super().__init__(name, float, 0.0)
+
+        def _tick(self):
+            t = self.simulator_time + 1.0
+            self.fire_timed(t, Simulator.TIME_CHANGED_EVENT, t)
+            self._simulator_time = t
+            self.model.tick()
+
+        def _step_impl(self):
+            if self.simulator_time + 1.0 <= self.replication.end_sim_time:
+                self._tick()
+
+        def _run(self):
+            self._runflag = True
+            while not self.is_stopping_or_stopped():
+                if self.simulator_time + 1.0 > self._run_until_time:
+                    if self._run_until_time >= self.replication.end_sim_time:
+                        self._replication_state = ReplicationState.ENDING
+                    self._run_state = RunState.STOPPING
+                    return
+                self._tick()
+
+    class Model(DSOLModel):
+        def __init__(self, simulator):
+            super().__init__(simulator)
+            self.constructed, self.ticks, self.attempt_at, self.verdict = 0, [], None, None
+
+        def construct_model(self):
+            self.constructed += 1
+            self.ticks = []
+
+        def tick(self):
+            t = self.simulator.simulator_time
+            self.ticks.append(t)
+            if self.attempt_at is not None and len(self.ticks) == self.attempt_at and self.verdict is None:
+                try:
+                    self.simulator.initialize(self, SingleReplication("again", start, 0.0, float(case["length"])))
+                    self.verdict = "accepted"
+                except DSOLError:
+                    self.verdict = "refused"
+                except Exception as e:
+                    self.verdict = type(e).__name__
+
+    start = case["start"]
+    where = dict(case)
+    sim = TickSimulator("tick")
+    model = Model(sim)
+
+    def quiet(timeout=20.0):
+        w = getattr(sim, "_Simulator__worker", None)
+        t0 = time.time()
+        while w is not None and w.is_alive() and not (w.is_waiting() and not w.is_running()
+                                                        and not getattr(w, "_SimulatorWorkerThread__wakeup_flag").is_set()):
+            time.sleep(0.0005)
+            if time.time() - t0 > timeout:
+                return False
+        return True
+
+    def run_to_end():
+        if case["driver"] == "step":
+            for _ in range(case["at"]):
+                sim.step()
+        elif case["driver"] == "run_up_to":
+            sim.run_up_to(start + case["length"] / 2 + 0.5)
+            if not quiet():
+                return False
+        if sim.run_state.name != "ENDED":
+            sim.start()
+        return quiet()
+    try:
+        rep = SingleReplication("first", start, 0.0, float(case["length"]))
+        if case["earlier"]:
+            sim.initialize(model, SingleReplication("earlier", start, 0.0, float(case["length"]) / 2))
+            sim.start()
+            quiet()
+        sim.initialize(model, rep)
+        built = model.constructed
+        if sim.simulator_time != start or model.ticks:
+            ctx.viol("tick-simulator:clock-not-at-the-replication-start-after-initialize", {**where, "clock": sim.simulator_time})
+            return
+        model.attempt_at = case["at"]
+        if not run_to_end():
+            ctx.viol("hang:tick-simulator", where)
+            return
+        ctx.count("refused_initialize_while_running")
+        ctx.count("model-defined_simulator_cases")
+        want = [start + k for k in range(1, case["length"] + 1)]
+        if model.verdict != "refused":
+            ctx.viol(f"initialize-while-running-not-refused:model-defined-simulator:{case['driver']}:{model.verdict}", {**where, "ticks": model.ticks[:12], "constructed": model.constructed - built})
+            return
+        if model.constructed != built or model.ticks != want or sim.run_state.name != "ENDED" or sim.simulator_time != start + case["length"]:
+            ctx.viol("refused-initialize-changed-the-run:model-defined-simulator", {**where, "ticks": model.ticks[:14], "state": sim.run_state.name, "clock": sim.simulator_time})
+            return
+        first = list(model.ticks)
+        # ---- and a new replication afterwards is a fresh one
+        model.attempt_at = None
+        sim.initialize(model, rep)
+        if sim.simulator_time != start or model.constructed != built + 1 or model.ticks or (sim.run_state.name, sim.replication_state.name) != ("INITIALIZED", "INITIALIZED"):
+            ctx.viol("tick-simulator:not-fresh-after-initialize", {**where, "clock": sim.simulator_time, "constructed": model.constructed - built, "state": sim.run_state.name})
+            return
+        sim.start()
+        if not quiet() or model.ticks != first or sim.simulator_time != start + case["length"]:
+            ctx.viol("second-replication-differs:model-defined-simulator", {**where, "first": first[:14], "second": model.ticks[:14]})
+            return
+        ctx.nontrivial = True
+    finally:
+        try:
+            sim.cleanup()
+        except Exception:
+            pass
+
+
 def run_case(case, ctx):
     import copy
+    if case.get("fam") == "tick":
+        return _tick_case(case, ctx)
     from vlib.simharness import Harness
     from vlib.refdevs import tnum
     prog, hist = case["prog"], case["hist"]
